@@ -100,7 +100,7 @@ let rcfg st ~allow_pool : wcfg =
   { comp = (match rint st 8 with 0 -> -1 | 1 | 2 -> 0 | n -> n - 2);
     level = (if rint st 3 = 0 then Some (rchoose st levels) else None);
     block_size = (match rint st 6 with 0 -> None | 1 -> Some 1 | 2 -> Some 1024 | 3 -> Some (rrange st 1025 1200) | 4 -> Some 2048 | _ -> Some (rrange st 1024 4096));
-    interval = (match rint st 6 with 0 -> None | 1 -> Some 1 | 2 -> Some 2 | 3 -> Some 3 | 4 -> Some 16 | _ -> Some (rrange st 1 20));
+    interval = (match rint st 7 with 0 -> None | 1 -> Some 1 | 2 -> Some 2 | 3 -> Some 3 | 4 -> Some 16 | 5 -> Some 0 | _ -> Some (rrange st 1 20));
     pool = (if allow_pool && rint st 4 = 0 then rrange st 1 4 else 0);
     prefix = (match rint st 8 with 0 -> 13L | 1 -> Int64.of_int (rrange st 1 300) | _ -> 0L) }
 
